@@ -5,6 +5,21 @@ from vlib import *
 def strip(dag):
     return [[n[0], n[1], n[2]] for n in dag]
 
+def post_order_form(dag):
+    """the DAG renumbered by a post-order walk from its root (children before parents, left before right, each once)"""
+    order, seen = [], {}
+    def walk(i):
+        if i in seen: return
+        nd = dag[i - 1]
+        for c in (nd[1], nd[2]):
+            if c: walk(c)
+        seen[i] = len(order) + 1
+        order.append(i)
+    import sys
+    sys.setrecursionlimit(10000)
+    walk(len(dag))
+    return [[dag[i - 1][0], seen.get(dag[i - 1][1], 0), seen.get(dag[i - 1][2], 0)] for i in order]
+
 def judge(case, g, one_one_only=False):
     """case may be None (recorded direction): then only the property's clauses on the crate's own report"""
     if "panic" in g: return ("c08:panic", "harness-level panic: %s" % g["panic"])
@@ -72,7 +87,11 @@ def body(c):
         else:
             c.traces += 1
         pp = g.get("pruned_prog")
-        if pp and strip(pp["dag"]) != strip(case["pdag"]): notes["pruned_dag_differs_from_model"] += 1
+        if pp and post_order_form(strip(pp["dag"])) != post_order_form(strip(case["pdag"])):
+            notes["pruned_dag_differs_from_model"] += 1
+            if not v:
+                c.report("c08:pruned-program-differs-from-model", "dag=%s aux=%s: the crate prunes to %s, Prune.tla to %s" % (
+                    strip(case["dag"]), case["aux"], post_order_form(strip(pp["dag"])), post_order_form(strip(case["pdag"]))), {"dir": "spec->impl", "case": case, "got": g})
         if g.get("prune", {}).get("arrow") == [["1"], ["1"]]: notes["c_one_one_checked"] += 1
     c.extra["notes"] = notes
     c.sample({"program": cases[0]["dag"], "witnesses": cases[0]["aux"], "pruned": cases[0]["pdag"]})
